@@ -280,6 +280,9 @@ async def open_android_netsim_controller_transport(
             if self.device:
                 return None
             self.device = device
+            # The parser is shared by all devices: a previous device may have
+            # left it in the middle of a packet.
+            self.parser.reset()
             return self.parser.feed_data
 
         def release_sink(self):
